@@ -186,9 +186,16 @@ func (h *Sources) Walk(pos int) {
 		h.hpos = 0
 	}
 
+	// Moving down from a history line past the most recent
+	// one brings back the line that was being typed.
+	fromHistory := h.hpos > 0
+
 	h.hpos += pos
 
 	switch {
+	case h.hpos < -1 && fromHistory:
+		h.restoreLineBuffer()
+		return
 	case h.hpos < -1:
 		h.hpos = -1
 		return
